@@ -34,6 +34,9 @@ type Outcome struct {
 	Nontrivial bool
 	Trace      uint64
 	Counters   map[string]int
+	Evals      int       // evaluations performed by this scenario (default 1)
+	Keys       []uint64  // keys of the distinct non-trivial cases it covered (default: the scenario digest)
+	Repro      *Scenario // minimal scenario reproducing the violation, if different from the executed one
 }
 
 func siteStr(id uint32) string {
